@@ -4,6 +4,7 @@ import ParryModel.C07.Theorems3
 import ParryModel.C07.Theorems4
 import ParryModel.C07.Theorems5
 import ParryModel.C07.Theorems6
+import ParryModel.C07.Theorems7
 /-!
 # C07 property theorems (aggregator)
 `Theorems1`: traversals over the abstract tree (depth-first complete / sound, work-list version, best-first optimal,
